@@ -35,3 +35,12 @@ package mpc
 //@   free requires wfVVin(dto.PM.VerificationVector()) && (dto.PM.MSP() != nil ==> wfM(dto.PM.MSP().Matrix()))
 //@   ensures err == nil ==> res(NewBaseShard(dto.Share, dto.PM.VerificationVector(), dto.PM.MSP()), 1) == nil
 //@   ensures err == nil ==> sh.share == dto.Share
+
+// Decoding public material replaces all four fields by those of a freshly constructed, validated value.
+//@ func (*BasePublicMaterial).UnmarshalCBOR
+//@   property C12, C06
+//@   let dto = as(res(serde.UnmarshalCBOR(data), 0), *basePublicMaterialDTO)
+//@   let built = NewBasePublicMaterial(dto.MSP, dto.VerificationVector)
+//@   free requires wfVVin(dto.VerificationVector) && (dto.MSP != nil ==> wfM(dto.MSP.Matrix()))
+//@   ensures err == nil ==> res(built, 1) == nil
+//@   ensures err == nil ==> spm.msp == res(built, 0).msp && spm.fv == res(built, 0).fv && spm.pkValue == res(built, 0).pkValue && spm.pkShares == res(built, 0).pkShares
